@@ -6,6 +6,7 @@ package main
 import (
 	"fmt"
 	"math/rand"
+	"strings"
 )
 
 type opnd struct {
@@ -37,7 +38,450 @@ var c05Types = []string{"string", "bool", "number", "array", "object", "regex", 
 
 const c05Show = "print r, r is string, r is number, r is bool, r is null"
 
+// ---------------------------------------------------------------- operator-history
+//
+// The SAME operator node evaluated several times in one run with operands whose
+// kind and value change between the evaluations.  The result of the k-th
+// evaluation must be the result of a fresh program that evaluates the operator
+// once on those operands (no per-node memory of earlier operands or results).
+
+// c05HistPool: C05's pool plus more regex values (valid and invalid) and pattern strings.
+func c05HistPool() []opnd {
+	p := append([]opnd{}, c05Pool()...)
+	return append(p, []opnd{
+		{"R", "/b$/", ""}, {"R", "/[0-9]+/", ""}, {"R", "/^abc$/", ""}, {"R", "/(/", ""}, {"R", "/[a/", ""}, {"R", "/x*/", ""}, {"R", "/^$/", ""},
+		{"S", "'b$'", `"b$"`}, {"S", "'[0-9]+'", `"[0-9]+"`}, {"S", "'[a'", `"[a"`}, {"S", "'banana'", `"banana"`}, {"S", "'abc1'", `"abc1"`}, {"S", "'x'", `"x"`},
+		{"N", "10", "10"}, {"N", "(-7)", "-7"}, {"N", "0.5", "0.5"},
+	}...)
+}
+
+type c05Eval struct{ a, b opnd }
+
+// c05HistCheck: line k of the history's output is the output of the k-th single evaluation;
+// the history stops with a runtime error exactly where the first failing single evaluation is.
+func c05HistCheck(k, total int) func(first, self Resp) string {
+	return func(first, self Resp) string {
+		out := string(first.Bytes("out"))
+		lines := strings.SplitAfter(out, "\n")
+		if len(lines) > 0 && lines[len(lines)-1] == "" {
+			lines = lines[:len(lines)-1]
+		}
+		if first["class"] != "ok" && first["class"] != "runtime" {
+			return "history program ended in class " + first["class"]
+		}
+		switch {
+		case k < len(lines):
+			if self["class"] != "ok" {
+				return fmt.Sprintf("evaluation %d of the history produced %q, but a fresh single evaluation on the same operands ends in class %s", k, lines[k], self["class"])
+			}
+			if got := string(self.Bytes("out")); got != lines[k] {
+				return fmt.Sprintf("evaluation %d of the history produced %q, a fresh single evaluation on the same operands produces %q", k, lines[k], got)
+			}
+		case k == len(lines):
+			if first["class"] == "ok" {
+				return fmt.Sprintf("the history printed only %d of %d results", len(lines), total)
+			}
+			if self["class"] != "runtime" {
+				return fmt.Sprintf("the history failed at evaluation %d, but a fresh single evaluation on the same operands ends in class %s out %q", k, self["class"], string(self.Bytes("out")))
+			}
+		default:
+			if first["class"] == "ok" {
+				return fmt.Sprintf("the history printed only %d of %d results", len(lines), total)
+			}
+		}
+		return ""
+	}
+}
+
+const c05SideFn = "function side(v) { n = n + 1\n return v }\n"
+
+// c05History emits one history program and its single-evaluation programs (one group).
+// op: a binary operator, or a unary form "u-" "u+" "u!" "is:<type>" "x++" "x--" "++x" "--x".
+func c05History(r *rand.Rand, gid int, op string, form string, evs []c05Eval, emit func(Case)) {
+	nt := func(i Resp) bool { return i["class"] == "ok" || i["class"] == "runtime" }
+	binary := false
+	for _, b := range c05BinOps {
+		if b == op {
+			binary = true
+		}
+	}
+	// the operation on operand texts x, y, as statements printing exactly one line
+	stmt := func(x, y string) string {
+		switch {
+		case form == "shortcircuit":
+			return fmt.Sprintf("n = 0; r = %s %s side(%s); print r, r is bool, n", x, op, y)
+		case binary:
+			return fmt.Sprintf("r = %s %s %s; %s", x, op, y, c05Show)
+		case strings.HasPrefix(op, "is:"):
+			return fmt.Sprintf("r = %s is %s; %s", x, op[3:], c05Show)
+		case op == "u-" || op == "u+" || op == "u!":
+			return fmt.Sprintf("r = %s%s; %s", op[1:], x, c05Show)
+		case op == "x++" || op == "x--":
+			return fmt.Sprintf("w = %s; r = w%s; print r, w, r is number, w is number", x, op[1:])
+		default: // ++x --x
+			return fmt.Sprintf("w = %s; r = %sw; print r, w, r is number, w is number", x, op[:2])
+		}
+	}
+	expr := func(x, y string) string { // the bare operator expression (patterns, function bodies)
+		switch {
+		case binary:
+			return fmt.Sprintf("%s %s %s", x, op, y)
+		case strings.HasPrefix(op, "is:"):
+			return fmt.Sprintf("%s is %s", x, op[3:])
+		default:
+			return fmt.Sprintf("%s%s", op[1:], x)
+		}
+	}
+	head := "function f() { return 1 }\n"
+	if form == "shortcircuit" {
+		head += c05SideFn
+	}
+	var prog string
+	var files []File
+	pairs := make([]string, len(evs))
+	as := make([]string, len(evs))
+	bs := make([]string, len(evs))
+	docs := make([]string, len(evs))
+	for i, e := range evs {
+		pairs[i] = "[" + e.a.expr + ", " + e.b.expr + "]"
+		as[i], bs[i] = e.a.expr, e.b.expr
+		docs[i] = "[" + e.a.json + "," + e.b.json + "]"
+	}
+	switch form {
+	case "forin-pairs", "shortcircuit":
+		prog = head + "BEGIN {\n  ps = [" + strings.Join(pairs, ", ") + "]\n  for (p in ps) { " + stmt("p[0]", "p[1]") + " }\n}\n"
+	case "for-index":
+		prog = head + "BEGIN {\n  xs = [" + strings.Join(as, ", ") + "]\n  ys = [" + strings.Join(bs, ", ") + "]\n  for (i = 0; i < xs.length(); i++) { x = xs[i]; y = ys[i]; " + stmt("x", "y") + " }\n}\n"
+	case "while-pop":
+		prog = head + "BEGIN {\n  ps = [" + strings.Join(pairs, ", ") + "]\n  while (ps.length() > 0) { p = ps.popfirst(); " + stmt("p[0]", "p[1]") + " }\n}\n"
+	case "function":
+		// the operator node lives in op(); the statement only shows its result
+		prog = head + "function op(a, b) { return " + expr("a", "b") + " }\nBEGIN {\n"
+		for i := range evs {
+			prog += fmt.Sprintf("  r = op(%s, %s); %s\n", as[i], bs[i], c05Show)
+		}
+		prog += "}\n"
+	case "records":
+		prog = head + "{ " + stmt("$[0]", "$[1]") + " }\n"
+		files = []File{{Name: "in.json", Data: []byte("[" + strings.Join(docs, ",") + "]")}}
+	case "records-jsonl":
+		prog = head + "{ " + stmt("$.a", "$.b") + " }\n"
+		var sb strings.Builder
+		for _, e := range evs {
+			fmt.Fprintf(&sb, "{\"a\": %s, \"b\": %s}\n", e.a.json, e.b.json)
+		}
+		files = []File{{Name: "in.jsonl", Data: []byte(sb.String())}}
+	case "records-right-table":
+		// left operand from the record, right operand (e.g. a regex value) from a table built in BEGIN
+		prog = head + "BEGIN { ys = [" + strings.Join(bs, ", ") + "] }\n{ y = ys[$index]; " + stmt("$", "y") + " }\n"
+		var ds []string
+		for _, e := range evs {
+			ds = append(ds, e.a.json)
+		}
+		files = []File{{Name: "in.json", Data: []byte("[" + strings.Join(ds, ",") + "]")}}
+	case "pattern":
+		// the operator is the rule's pattern; one line per record either way
+		prog = head + "BEGIN { ys = [" + strings.Join(bs, ", ") + "] }\n" + expr("$", "ys[$index]") + " { print \"hit\"; next }\n{ print \"miss\" }\n"
+		var ds []string
+		for _, e := range evs {
+			ds = append(ds, e.a.json)
+		}
+		files = []File{{Name: "in.json", Data: []byte("[" + strings.Join(ds, ",") + "]")}}
+	}
+	group := fmt.Sprintf("hist%d", gid)
+	var desc []string
+	for _, e := range evs {
+		desc = append(desc, e.a.kind+op+e.b.kind)
+	}
+	meta := metaProg(prog, "form", form, "operator", op, "kinds", strings.Join(desc, " "), "row", op, "col", form)
+	if files != nil {
+		meta["input"] = string(files[0].Data)
+	}
+	emit(Case{Req: RunReq(prog, nil, files, false), Fields: []string{"class", "out"}, Meta: meta, NonTrivial: nt, Group: group})
+	for k, e := range evs {
+		var single string
+		switch form {
+		case "function":
+			single = head + "BEGIN { r = " + expr(e.a.expr, e.b.expr) + "; " + c05Show + " }\n"
+		case "pattern":
+			single = head + expr("("+e.a.expr+")", e.b.expr) + " { print \"hit\"; next }\n{ print \"miss\" }\n"
+		default:
+			single = head + "BEGIN { " + stmt(e.a.expr, e.b.expr) + " }\n"
+		}
+		var sf []File
+		if form == "pattern" {
+			sf = []File{{Name: "in.json", Data: []byte("[0]")}}
+		}
+		emit(Case{Req: RunReq(single, nil, sf, false), Fields: []string{"class", "out"}, NonTrivial: nt, Group: group,
+			GroupCheck: c05HistCheck(k, len(evs)),
+			Meta:       metaProg(single, "form", "single evaluation "+fmt.Sprint(k)+" of "+group, "operator", op, "kinds", e.a.kind+op+e.b.kind)})
+	}
+}
+
+func c05GenHistory(r *rand.Rand, tier string, emit func(Case)) {
+	pool := c05HistPool()
+	byKind := map[string][]opnd{}
+	var jsonable, noFn []opnd
+	for _, o := range pool {
+		byKind[o.kind] = append(byKind[o.kind], o)
+		if o.json != "" {
+			jsonable = append(jsonable, o)
+		}
+		if o.kind != "F" {
+			noFn = append(noFn, o)
+		}
+	}
+	var patterns, subjects []opnd // right and left operands that make ~ / !~ interesting
+	for _, o := range pool {
+		if o.kind == "R" || o.kind == "S" {
+			patterns = append(patterns, o)
+		}
+		if o.kind == "S" || o.kind == "N" {
+			subjects = append(subjects, o)
+		}
+	}
+	gid := 0
+	// a sequence of operand pairs whose kinds and values change; for ~ / !~ the right
+	// operands alternate between regex values, strings, invalid patterns and other kinds
+	seq := func(op string, from []opnd, n int) []c05Eval {
+		evs := make([]c05Eval, n)
+		for i := range evs {
+			a, b := pick(r, from), pick(r, from)
+			if op == "~" || op == "!~" {
+				if chance(r, 0.85) {
+					b = pick(r, patterns)
+				}
+				if chance(r, 0.7) {
+					a = pick(r, subjects)
+				}
+				var ok []opnd
+				for _, o := range from {
+					if o.expr == a.expr {
+						ok = append(ok, o)
+					}
+				}
+				if len(ok) == 0 {
+					a = pick(r, from)
+				}
+				ok = ok[:0]
+				for _, o := range from {
+					if o.expr == b.expr {
+						ok = append(ok, o)
+					}
+				}
+				if len(ok) == 0 {
+					b = pick(r, from)
+				}
+			}
+			evs[i] = c05Eval{a, b}
+			// now and then the very operands of an earlier evaluation again, or only one side changed
+			if i > 0 && chance(r, 0.25) {
+				prev := evs[r.Intn(i)]
+				switch r.Intn(3) {
+				case 0:
+					evs[i] = prev
+				case 1:
+					evs[i].a = prev.a
+				default:
+					evs[i].b = prev.b
+				}
+			}
+		}
+		return evs
+	}
+	binForms := []string{"forin-pairs", "for-index", "while-pop", "function", "records", "records-jsonl", "records-right-table", "pattern"}
+	per := tierN(tier, 14, 300)
+	for _, op := range c05BinOps {
+		for _, form := range binForms {
+			from := noFn
+			switch form {
+			case "records", "records-jsonl":
+				from = jsonable
+			}
+			m := per
+			if op == "~" || op == "!~" {
+				m = per * 3
+			}
+			for i := 0; i < m; i++ {
+				evs := seq(op, from, 2+r.Intn(5))
+				if form == "records-right-table" || form == "pattern" {
+					for j := range evs { // the left operand comes from the document
+						for evs[j].a.json == "" {
+							evs[j].a = pick(r, jsonable)
+						}
+					}
+				}
+				gid++
+				c05History(r, gid, op, form, evs, emit)
+			}
+		}
+	}
+	for _, op := range []string{"&&", "||"} {
+		for i := 0; i < per*2; i++ {
+			gid++
+			c05History(r, gid, op, "shortcircuit", seq(op, noFn, 2+r.Intn(5)), emit)
+		}
+	}
+	unary := []string{"u-", "u+", "u!", "x++", "x--", "++x", "--x"}
+	for _, t := range c05Types {
+		unary = append(unary, "is:"+t)
+	}
+	for _, op := range unary {
+		forms := []string{"forin-pairs", "for-index", "while-pop", "records"}
+		if !strings.Contains(op, "x") {
+			forms = append(forms, "function")
+		}
+		for _, form := range forms {
+			from := noFn
+			if form == "records" {
+				from = jsonable
+			}
+			for i := 0; i < per; i++ {
+				gid++
+				c05History(r, gid, op, form, seq(op, from, 2+r.Intn(5)), emit)
+			}
+		}
+	}
+}
+
+// ---------------------------------------------------------------- operand-expressions
+//
+// Operands that are the RESULT of a value-producing expression form (string
+// index, array / object / document member, method result, function result, match
+// expression, assignment, ++/--, regex match, builtin, nested operator) instead
+// of a literal, variable or field.  The operator must see exactly the value the
+// expression yields: `E op B` gives what `L op B` gives, L being the literal
+// with the value of E.
+
+type c05Form struct {
+	setup string // statements run before (fresh names per program)
+	expr  string
+	lit   string // the literal with the same value
+	lval  bool   // E is assignable (also tested under ++ / -- / op=)
+}
+
+const c05FormDoc = `{"f": "789", "g": "60", "n": 4, "a": [7, "8", null, true], "o": {"k": "9", "m": 2.5}, "e": ""}`
+const c05FormFuncs = "function f() { return 1 }\nfunction id(x) { return x }\nfunction seven() { return 7 }\nfunction noret() { f() }\n"
+
+func c05Forms() []c05Form {
+	F := func(setup, expr, lit string) c05Form { return c05Form{setup, expr, lit, false} }
+	LV := func(setup, expr, lit string) c05Form { return c05Form{setup, expr, lit, true} }
+	return []c05Form{
+		// characters of strings: digits whose value differs from their position, non-digits, out of range
+		F("s = '789'", "s[0]", "'7'"), F("s = '789'", "s[1]", "'8'"), F("s = '789'", "s[2]", "'9'"), F("s = '789'", "s[5]", "null"), F("s = '789'", "s[-1]", "null"),
+		F("s = '5x'", "s[0]", "'5'"), F("s = '5x'", "s[1]", "'x'"), F("s = '042'", "s[0]", "'0'"), F("s = '042'", "s[1]", "'4'"), F("s = '042'", "s[2]", "'2'"),
+		F("s = '-3'", "s[0]", "'-'"), F("s = '-3'", "s[1]", "'3'"), F("", "'789'[1]", "'8'"), F("", "'abc'[0]", "'a'"), F("", "''[0]", "null"), F("", "'31'[1]", "'1'"),
+		F("", "$.f[0]", "'7'"), F("", "$.f[1]", "'8'"), F("", "$.f[2]", "'9'"), F("", "$.g[0]", "'6'"), F("", "$.g[1]", "'0'"), F("", "$.f[3]", "null"), F("", "$.e[0]", "null"),
+		F("i = 2", "$.f[i]", "'9'"), F("s = '4321'; i = 1", "s[i]", "'3'"), F("s = '4321'", "s[s.length() - 1]", "'1'"), F("s = '90'", "s[s[1]]", "null"), F("s = '90'", "s[num(s[1])]", "'9'"), F("", "$.o.k[0]", "'9'"),
+		F("s = '789'", "(s[1])", "'8'"), F("s = '789'", "id(s[2])", "'9'"), F("s = '789'", "[s[0]][0]", "'7'"), F("s = '789'; c = s[1]", "c", "'8'"),
+		// members of arrays, objects and the document (present, missing)
+		LV("arr = [4, '5', true, null]", "arr[0]", "4"), LV("arr = [4, '5', true, null]", "arr[1]", "'5'"), LV("arr = [4, '5', true, null]", "arr[2]", "true"), LV("arr = [4, '5', true, null]", "arr[3]", "null"),
+		F("arr = [4, '5', true, null]", "arr[9]", "null"), LV("arr = [4, '5', true, null]", "arr[-3]", "'5'"),
+		LV("o = {k: 6, t: '7', z: null}", "o.k", "6"), LV("o = {k: 6, t: '7', z: null}", "o.t", "'7'"), LV("o = {k: 6, t: '7', z: null}", "o['t']", "'7'"), F("o = {k: 6, t: '7', z: null}", "o.none", "null"),
+		F("o = {k: 6, t: '7', z: null}", "o.none.deeper", "null"), LV("", "$.n", "4"), LV("", "$.a[0]", "7"), LV("", "$.a[1]", "'8'"), LV("", "$.a[2]", "null"), LV("", "$.a[3]", "true"), LV("", "$.o.k", "'9'"),
+		LV("", "$.o.m", "2.5"), F("", "$.zip", "null"), F("", "$.a[7]", "null"), LV("", "$.e", "''"), F("n2 = [[1, '2'], {q: '3'}]", "n2[0][1]", "'2'"), F("n2 = [[1, '2'], {q: '3'}]", "n2[1].q", "'3'"),
+		// method results
+		F("s = '789'", "s.length()", "3"), F("arr = [4, '5', true]", "arr.length()", "3"), F("", "'a,3'.split(',')[1]", "'3'"), F("", "'3'.upper()", "'3'"), F("", "'AB'.lower()", "'ab'"),
+		F("", "(2.7).floor()", "2"), F("", "(2.2).ceil()", "3"), F("", "(2.5).round()", "3"), F("", "(-0.5).ceil()", "(-0)"), F("", "[3, 1, 2].sort()[0]", "1"), F("", "['b', 'a'].sort()[1]", "'b'"),
+		F("", "[1, 9].pop()", "9"), F("", "[8, 1].popfirst()", "8"), F("", "[].pop()", "null"), F("", "{k: 6}.pluck('k').k", "6"), F("", "{k: 6}.pluck('j').j", "null"), F("", "[1].contains(1)", "true"),
+		F("", "[1].contains(2)", "false"), F("", "[1].push(5)[1]", "5"), F("", "''.length()", "0"), F("", "{a: 1, b: 2}.length()", "2"), F("", "'7 8'.split(' ')[0]", "'7'"), F("", "$.f.length()", "3"),
+		// function results, match expressions
+		F("", "id('9')", "'9'"), F("", "id(0)", "0"), F("", "seven()", "7"), F("", "noret()", "null"), F("", "id(null)", "null"), F("", "id(true)", "true"), F("", "id(id('1e3'))", "'1e3'"),
+		F("", "match (1) { _ => '8' }", "'8'"), F("", "match (2) { 1 => 0 }", "null"), F("", "match ('x') { v => v }", "'x'"), F("", "match (5) { n => n }", "5"), F("", "match ([1, '2']) { [p, q] => q }", "'2'"),
+		F("", "match (1) { _ => { w = 3 } }", "null"),
+		// assignment and ++ / -- results
+		F("", "(x = 5)", "5"), F("", "(x = '6')", "'6'"), F("x = 2", "(x += 1)", "3"), F("x = 2", "(x -= 2)", "0"), F("", "(y = x = 4)", "4"), F("o2 = {}", "(o2.k = 3)", "3"), F("x = '2'", "(x += 1)", "'21'"),
+		F("x = 2", "(x++)", "2"), F("x = 2", "(++x)", "3"), F("x = 2", "(x--)", "2"), F("x = 2", "(--x)", "1"), F("x = '7'", "(x++)", "7"), F("x = null", "(++x)", "1"), F("", "(u2++)", "0"), F("", "(--u3)", "(-1)"),
+		F("arr = [4, '5']", "(arr[1]++)", "5"), F("arr = [4, '5']", "(++arr[1])", "6"),
+		// regex matches, builtins, nested operators
+		F("", "('a' ~ /a/)", "true"), F("", "('a' !~ /a/)", "false"), F("", "('b' ~ 'a')", "false"), F("", "num('12')", "12"), F("", "num('x')", "null"), F("", "num(3.7)", "3"), F("", "json(5)", "'5'"),
+		F("", "json('a')", "'\"a\"'"), F("", "json(null)", "'null'"), F("", "(-'3')", "(-3)"), F("", "(!0)", "true"), F("", "(!1)", "false"), F("", "(+'2.5')", "2.5"), F("", "(1 + 2)", "3"),
+		F("", "('1' + 2)", "'12'"), F("", "(7 % 4)", "3"), F("", "(1 / 4)", "0.25"), F("", "(2 < 3)", "true"), F("", "(null == null)", "true"), F("", "(0 * -1)", "(-0)"), F("", "('a' < 'b')", "true"),
+	}
+}
+
+func c05GenForms(r *rand.Rand, tier string, emit func(Case)) {
+	forms := c05Forms()
+	pool := c05Pool()
+	nt := func(i Resp) bool { return i["class"] == "ok" || i["class"] == "runtime" }
+	files := []File{{Name: "in.json", Data: []byte(c05FormDoc)}}
+	gid := 0
+	// a pair of programs: the statements with E (and its setup), and with the literal instead
+	pair := func(setup, withE, withL, what string) {
+		gid++
+		g := fmt.Sprintf("form%d", gid)
+		progL := c05FormFuncs + "{ " + withL + " }\n"
+		progE := c05FormFuncs + "{ " + setup + "\n " + withE + " }\n"
+		if setup == "" {
+			progE = c05FormFuncs + "{ " + withE + " }\n"
+		}
+		emit(Case{Req: RunReq(progL, nil, files, false), Fields: []string{"class", "out"}, NonTrivial: nt, Group: g, GroupFields: []string{"class", "out"},
+			Meta: metaProg(progL, "what", what, "side", "literal operand")})
+		emit(Case{Req: RunReq(progE, nil, files, false), Fields: []string{"class", "out"}, NonTrivial: nt, Group: g, GroupFields: []string{"class", "out"},
+			Meta: metaProg(progE, "what", what, "side", "expression operand", "row", strings.SplitN(what, " ", 2)[0])})
+	}
+	nB := tierN(tier, 2, 8)
+	for _, f := range forms {
+		for _, op := range c05BinOps {
+			for k := 0; k < nB; k++ {
+				b := pick(r, pool)
+				pair(f.setup, fmt.Sprintf("r = %s %s %s\n %s", f.expr, op, b.expr, c05Show), fmt.Sprintf("r = %s %s %s\n %s", f.lit, op, b.expr, c05Show), "left "+op+" form "+f.expr)
+				b = pick(r, pool)
+				pair(f.setup, fmt.Sprintf("r = %s %s %s\n %s", b.expr, op, f.expr, c05Show), fmt.Sprintf("r = %s %s %s\n %s", b.expr, op, f.lit, c05Show), "right "+op+" form "+f.expr)
+			}
+			// the operator the seeded class is about most directly: the same operand on both sides / with plain numbers
+			n := pick(r, []string{"1", "2", "5", "0", "10"})
+			pair(f.setup, fmt.Sprintf("r = %s %s %s\n %s", f.expr, op, n, c05Show), fmt.Sprintf("r = %s %s %s\n %s", f.lit, op, n, c05Show), "left-num "+op+" form "+f.expr)
+		}
+		for _, u := range []string{"-", "+", "!", "- -", "!!"} {
+			pair(f.setup, fmt.Sprintf("r = %s%s\n %s", u, f.expr, c05Show), fmt.Sprintf("r = %s%s\n %s", u, f.lit, c05Show), "unary "+u+" form "+f.expr)
+		}
+		for _, t := range c05Types {
+			pair(f.setup, fmt.Sprintf("r = %s is %s\n %s", f.expr, t, c05Show), fmt.Sprintf("r = %s is %s\n %s", f.lit, t, c05Show), "is "+t+" form "+f.expr)
+		}
+		if f.lval {
+			for _, st := range []string{"r = X++", "r = ++X", "r = X--", "r = --X", "r = (X += 2)", "r = (X -= 2)", "r = (X *= 2)", "r = (X /= 2)"} {
+				pair(f.setup, strings.ReplaceAll(st, "X", f.expr)+"\n "+c05Show+"\n print "+f.expr, "x = "+f.lit+"\n "+strings.ReplaceAll(st, "X", "x")+"\n "+c05Show+"\n print x", "update "+st+" form "+f.expr)
+			}
+		}
+		// the expression as a truth value and as a pattern subject
+		pair(f.setup, fmt.Sprintf("if (%s) print 'T'; else print 'E'", f.expr), fmt.Sprintf("if (%s) print 'T'; else print 'E'", f.lit), "truth form "+f.expr)
+	}
+	// two expression operands (setups must not clash)
+	for i, n := 0, tierN(tier, 1500, 20000); i < n; i++ {
+		a, b := pick(r, forms), pick(r, forms)
+		if a.setup != "" && b.setup != "" && a.setup != b.setup {
+			continue
+		}
+		upd := func(f c05Form) bool {
+			e := strings.ReplaceAll(strings.ReplaceAll(f.expr, "==", ""), "=>", "")
+			return strings.Contains(e, "=") || strings.Contains(e, "++") || strings.Contains(e, "--")
+		}
+		if upd(a) && upd(b) {
+			// both sides update a name: an operand that is an assignment is the variable's own cell, so
+			// `(x = 5) + (x = '6')` reads x twice ("66") -- the pair with literals would not be equivalent
+			continue
+		}
+		setup := a.setup
+		if setup == "" {
+			setup = b.setup
+		}
+		op := pick(r, c05BinOps)
+		pair(setup, fmt.Sprintf("r = %s %s %s\n %s", a.expr, op, b.expr, c05Show), fmt.Sprintf("r = %s %s %s\n %s", a.lit, op, b.lit, c05Show), "both "+op+" forms "+a.expr+" , "+b.expr)
+	}
+}
+
 func init() {
+	register(Family{
+		Name: "operand-expressions", Prop: "C05",
+		Rule: "operands that are the RESULT of a value-producing expression (about 150 forms: characters of strings by index incl. digits whose value differs from their position, out-of-range and computed indices, characters of document fields; present and missing members of arrays, objects and the document; results of every method; function results incl. none; match expressions; assignment, chained and compound assignment, prefix / postfix ++ --; regex matches; num / json; nested unary and binary operators) as left and as right operand of all 15 binary operators against random pool operands and small numbers, under unary - + ! and `is` with every type name, as a condition, under ++ -- op= where assignable, and pairs of two such expressions; oracle (implementation only, group relation): the program with the expression and the program with the literal of the same value give the same class and output; every program is also compared with the model",
+		Gen:  c05GenForms,
+	})
+	register(Family{
+		Name: "operator-history", Prop: "C05",
+		Rule: "the SAME operator node evaluated 2-6 times in one run on operands whose kind and value change between the evaluations (all 15 binary operators, unary - + !, prefix/postfix ++ --, `is` with every type name, && / || with a counting right operand; for ~ and !~ the right operands alternate between regex values, pattern strings, invalid patterns and other kinds; earlier operands recur): in a for-in loop over an array of operand pairs, an indexed for loop over two arrays, a while loop popping pairs, a function called with different arguments, a rule body over the records of an array root and of a JSONL stream, a rule body whose right operand comes from a table indexed by $index, and a rule PATTERN; oracle (implementation only, group relation): line k of the history equals the output of a fresh program that evaluates the operator once on the k-th operands written as literals, and the history stops with a runtime error exactly at the first evaluation whose single program fails; every program is also compared with the model",
+		Gen:  c05GenHistory,
+	})
 	register(Family{
 		Name: "binop-literals", Prop: "C05",
 		Rule: "every binary operator x every ordered pair of pool operands (all 9 kinds, several values each) written as literals; non-trivial = distinct program whose outcome is a value or a runtime error",
